@@ -22,6 +22,12 @@ CHECKS = {
     "C18": dict(engine="exec", cat="exploration", tech="runtime differential monitoring of float opcodes: native vs emulator vs independent IEEE reference on structured operand sets",
                 text="bit-exact three-way comparison (native sse/avx, emulation, reference) of all float/double opcodes on structured operands, with the tolerances the statement grants (NaN class, min/max of equal operands)",
                 note="reference uses host IEEE arithmetic in round-to-nearest; generated-C path is covered by C04"),
+    "C11": dict(engine="asmdump+asmcmp+exec", cat="exploration", tech="runtime monitoring of emitted machine code: objdump disassembly re-assembled by GNU as under the ISA the flags allow, plus native execution under feature-flag subsets",
+                text="every single-opcode program under every SSE/MMX feature subset (plus sampled multi-instruction programs) is compiled; the bytes Orc emitted are disassembled and re-assembled under `.arch` restrictions matching the flags; each subset is also executed against emulation",
+                note="GNU as/objdump are the ISA oracle; 32-bit code is classified but not executed; subsets of this host's features only"),
+    "C12": dict(engine="asmdump+asmcmp", cat="exploration", tech="runtime comparison of the assembled listing with the emitted machine code through a common disassembler",
+                text="listing assembled with GNU as and machine code both disassembled with objdump and compared instruction by instruction (nop padding dropped, branch targets as instruction ordinals) for generated programs x targets x 64/32-bit x jumps x frame pointer x feature subsets",
+                note="no ARM/MIPS cross assembler is installed, so the NEON/MIPS sub-claim is not decided (the statement makes it conditional on one being installed)"),
 }
 
 PENDING = ["C04", "C05", "C06", "C07", "C08", "C09", "C11", "C12", "C13", "C14", "C15", "C16", "C17", "C19", "C20"]
@@ -31,6 +37,8 @@ ENGINES = [
      "kind_free_text": "differential execution harness: generated programs run natively through a state-checking trampoline on guard-page arrays, through the emulator and through an independent reference interpreter"},
     {"name": "emu", "path": "harness/emu.c", "serves_properties": ["C02"],
      "kind_free_text": "operand-value sweeps of the emulator against harness/ref.c"},
+    {"name": "asmdump+asmcmp", "path": "harness/asmdump.c", "serves_properties": ["C11", "C12"],
+     "kind_free_text": "dumps listing and machine code of compiled programs; vlib/asmcmp.py compares them through GNU as/objdump and classifies instructions against ISA subsets"},
 ]
 
 
